@@ -30,7 +30,12 @@
 (*       outcome the dispatcher was programmed to produce; `res` what the  *)
 (*       caller observed                                                   *)
 (*   Uri(uri, res)                  ScalesUriParser.Parse(uri) returned /  *)
-(*       raised `res`                                                      *)
+(*       raised `res`.  The provider a URI yields is a value: the driver   *)
+(*       queries it several times (also after other URIs were parsed, and  *)
+(*       from two clients built off one SetUri) and every query is one Uri *)
+(*       event, judged alike ("failed" = the query raised).  Several       *)
+(*       related interfaces of one hierarchy proxied in one process are    *)
+(*       likewise one Iface (+ Fwd) event each, judged alike.              *)
 (*                                                                         *)
 (* Clauses                                                                 *)
 (*   C20.exposes       every public method is exposed in both forms        *)
